@@ -7,3 +7,8 @@ import AL.Props.C10Meta
 #print axioms AL.C10M.saneB_sound
 #print axioms AL.C10M.noPlaceholderB_sound
 #print axioms AL.C10M.interface_agrees_checked
+#print axioms AL.C10M.events_sync
+#print axioms AL.C10M.on_interface_agrees
+#print axioms AL.C10M.on_interface_agrees'
+#print axioms AL.C10M.document_interface_agrees
+#print axioms AL.C10M.document_interface_agrees_checked
